@@ -132,6 +132,8 @@ def evaluate(case):
         classes.append("compatible_flag")
     if case.get("attr"):
         classes.append("attribute_flag")
+    if len(positions) >= 900:
+        classes.append("run_of_>=900_nops")
     return Result(fail, nontrivial, tuple(set(classes)), sample=sample)
 
 
@@ -161,6 +163,9 @@ def gen_case(ch):
             positions.append(ch.pick([0, len(toks)]))
         else:
             positions.append(ch.int(0, len(toks)))
+    if ch.bool(3):
+        # one long run of padding at a single position (samples padded to 1024 / 2048 / 4096)
+        positions = [ch.pick(positions + [len(toks)])] * ch.pick([999, 1200, 2500, 4100])
     return dict(table=spec, toks=toks, positions=sorted(positions), compat=ch.bool(25), attr=ch.bool(30))
 
 
